@@ -43,8 +43,8 @@ LoadFile ==
        IN  Report(IF phase # "loading" THEN "registry-file-read-after-load-finished"
                   ELSE IF n >= Len(names) THEN "more-files-read-than-the-directory-holds"
                   ELSE IF names[n + 1] # Ev.nc THEN "file-read-out-of-name-order" ELSE "ok")
-    /\ nIban' = IF Ev.kind = "iban" THEN nIban + 1 ELSE nIban
-    /\ nBank' = IF Ev.kind = "bank" THEN nBank + 1 ELSE nBank
+    /\ nIban' = IF Ev.kind = "iban" /\ nIban <= Len(IbanNames) THEN nIban + 1 ELSE nIban
+    /\ nBank' = IF Ev.kind = "bank" /\ nBank <= Len(BankNames) THEN nBank + 1 ELSE nBank
     /\ l' = l + 1 /\ UNCHANGED phase
 
 \* import finished: every file has been read; the registry is frozen from here on
